@@ -375,7 +375,7 @@ func (c *c15) deliver(o *OracleEnv, cs c15Case, vecName string, oracleEnabled bo
 }
 
 func checkC15(run *mon.Run, rng *mon.Rand, thorough bool) {
-	run.Rule = "adversarial extended-commit generator against the real UpdateOracle path (connect codecs, ValidateVoteExtensions, vote-weighted median, oracle keeper): 21 attack kinds (honest, subsets just below / at 2/3, duplicated votes, two votes by one validator, forged / foreign / wrong chain-height-round / missing signatures, unknown validators with huge claimed power, non-commit flags with and without extension, missing pairs, undecodable and oversized prices, empty extensions, garbage bytes, old height, non-executor) x 9 power vectors around the 2/3 line, in sequences with equal / older / newer timestamps, oracle flag toggled, and host-set refreshes with lower / equal / higher heights and right / wrong / empty client ids. The qualifying power per changed pair is computed from the harness's own knowledge of every key. Distinct non-trivial = (attack kind, power vector, outcome, would-reach-quorum-if-counted)"
+	run.Rule = "adversarial extended-commit generator against the real UpdateOracle path (connect codecs, ValidateVoteExtensions, vote-weighted median, oracle keeper): 21 attack kinds (honest, subsets just below / at 2/3, duplicated votes, two votes by one validator, forged / foreign / wrong chain-height-round / missing signatures, unknown validators with huge claimed power, non-commit flags with and without extension, missing pairs, undecodable and oversized prices, empty extensions, garbage bytes, old height, non-executor) x 9 power vectors around the 2/3 line, in sequences with equal / older / newer timestamps, oracle flag toggled, and host-set refreshes with lower / equal / higher heights and right / wrong / empty client ids. The qualifying power per changed pair is computed from the harness's own knowledge of every key. Distinct non-trivial = (attack kind, power vector, outcome, would-reach-quorum-if-counted) Plus scripted scenarios: late relay between a full and a partial update; genuine signatures harvested from an accepted commit re-attached to other extensions; attempts to re-point the configured L1 client."
 	run.Assumptions = []string{"necessary-condition direction only (the code's threshold 0.667 is stricter than 2/3)", "connect's codecs and ed25519 are trusted to build the adversarial commits"}
 	run.Declare("C15.price_comes_from_a_signed_vote", 10)
 	for _, c := range []string{"C15.changed_pair_has_two_thirds_quorum", "C15.timestamp_strictly_increases", "C15.sender_is_executor_and_oracle_enabled", "C15.height_not_older_than_host_set", "C15.accepted_update_observed",
